@@ -15,8 +15,9 @@ flattening of Props/C05Multi.lean in which
   real global table (name space `num 0`; the main file is instance 1, included files are numbered in preorder from 2).
 
 Proved: `layout_refines_asm_global_partial` — for a project whose include tree is free of `.import/.export`, with `plain`
-operands, and in which every `.global x` stands below a label / `.const` of the same file defining `x`
-(`Glob.GlobalProject`): a successful run's image is the `pass2` image of the reference on the flattened program with
+operands, and in which every `.global x` stands below a label / `.const` of the same file defining `x` or below an
+`.include` of a file that itself declares `x` global (re-publication up the include chain to the real global table;
+`Glob.GlobalProject`, `Glob.declOk`): a successful run's image is the `pass2` image of the reference on the flattened program with
 aliases; every emitting statement of that program stands with its reference bytes at its reference address; if no
 label stands at 2^32, `Ref.layout` is defined, equals the image, and its pass-1 table is `E`, which restricts to every
 file instance's final table AND to the final global table (`pub [] A`).
@@ -30,10 +31,7 @@ PARTIAL, what is missing for the full `.global` stage:
     same file without `.global x`, or with `x:` moved to the top, is rejected with "arithmetic overflow".  A correct
     statement needs the hypothesis that the direct evaluation succeeds (then C08 `simp_sound` gives equal values) and a
     retry theorem for `Deferred` lookups, which Lemmas/SimpRetry.lean does not have (`NoDef` is assumed throughout);
-(b) re-publication of an included file's global (`.include "j"; .global x` with `x` from `j`): excluded by `declOk`
-    (which looks at the file's own labels and `.const`s only); the proof itself needs only "`x` is valued in the file's
-    table when `.global x` is met";
-(c) `.import` / `.export` (stage 3), in particular statements handed to the includer's queue and the `finalize` queue.
+(b) `.import` / `.export` (stage 3), in particular statements handed to the includer's queue and the `finalize` queue.
 -/
 namespace Trion.Asm
 open Trion Trion.SegLayout Trion.Asm.Multi Trion.Asm.Glob
@@ -162,7 +160,7 @@ def globalProjectB (fs : Bytes → Option Bytes) : Nat → Bytes → Bytes → B
   | 0, _, _ => true
   | fuel + 1, path, data =>
     match parseFile data with
-    | .ok (els, _) => declOk [] els && els.all fun el => okGlob el && plainEl el &&
+    | .ok (els, _) => declOk fs path [] els && els.all fun el => okGlob el && plainEl el &&
         match incTarget fs path el with
         | some (p', d') => globalProjectB fs fuel p' d'
         | none => true
@@ -228,5 +226,21 @@ example : Layout.Ref.layout [.addr 16, .emit 2 [10] [0x12, 0x00], .label 20, .ra
     Layout.Ref.pass1 none [] [.addr 16, .emit 2 [10] [0x12, 0x00], .label 20, .raw [0x13, 0x00], .const 10 [20] 18,
         .raw [0x12, 0x00], .label 11, .const 1 [11] 22] =
       some [(1, 22), (11, 22), (10, 18), (20, 18)] := ⟨by rfl, by rfl⟩
+
+/-- a chain: `j` defines and publishes `z`, `i` includes `j` and publishes `z` again, `m` uses `z` ABOVE its `.include "i"` and
+publishes it to the global table -/
+def exCMain : Bytes := bytesOf ".addr 16;\n.du16 z;\n.include \"i\";\n.global z;\n"
+def exCMid : Bytes := bytesOf ".include \"j\";\n.global z;\n"
+def exCLeaf : Bytes := bytesOf "z:\n.du16 z + 1;\n.global z;\n"
+def exCFs : Bytes → Option Bytes := fun p =>
+  if p = bytesOf "m" then some exCMain else if p = bytesOf "i" then some exCMid
+  else if p = bytesOf "j" then some exCLeaf else none
+
+set_option maxRecDepth 100000 in
+example : GlobalProject exCFs maxDepth (bytesOf "m") exCMain ∧
+    (match run exCFs (bytesOf "m") with
+      | .done o => o.success && o.diags.isEmpty && o.image == [(16, [0x12, 0x00, 0x13, 0x00])]
+      | _ => false) = true :=
+  ⟨globalProject_of_B _ _ _ _ (by decide +kernel), by decide +kernel⟩
 
 end Trion.Asm
